@@ -50,6 +50,18 @@ func c09(args []string) error {
 			st1, st2 = pw.AlignStarts()
 			en1, en2 = pw.AlignEnds()
 			nm, nmm, ng, ln = pw.NbMatches(), pw.NbMisMatches(), pw.NbGaps(), pw.Length()
+			// asking again must describe the same alignment (rows, score, positions, counters)
+			if !atg {
+				if _, e2 := pw.Alignment(); e2 == nil {
+					s1b, s2b := pw.AlignStarts()
+					if pw.MaxScore() != score || string(pw.Seq1Ali()) != r1 || string(pw.Seq2Ali()) != r2 || s1b != st1 || s2b != st2 ||
+						pw.NbMatches() != nm || pw.NbMisMatches() != nmm || pw.NbGaps() != ng || pw.Length() != ln {
+						ln = -7 // impossible length: both oracles reject the case
+					}
+				} else {
+					ln = -7
+				}
+			}
 			return nil
 		})
 		z2 := func(f float64) string { return coqZ(int(f * 2)) }
